@@ -446,4 +446,121 @@ theorem reach_visited (g : Store) (fuel : Nat) (r : Nat) (P : Dict)
   | @step b c _ hedge ih =>
     exact h4 herr b (by simpa [h1] using ih) c hedge
 
+/-! ### Inheritance along the path of the first visit -/
+
+/-- Object numbers from a node up towards the root, each one a Kids entry of the next. -/
+def IsChain (g : Store) : List Nat → Prop
+  | [] => True
+  | [_] => True
+  | a :: b :: rest => Edge g b a ∧ IsChain g (b :: rest)
+
+theorem append_singleton_append (path : List Nat) (id : Nat) (anc : List Nat) :
+    (path ++ [id]) ++ anc = path ++ (id :: anc) := by simp
+
+/-- A yielded page that is an indirect object was reached along a chain of Kids entries from the
+entry the walk started at, and its inheritable attributes are its own or those of the nearest
+node on that chain (continued by the ancestors `anc` of the entry) that defines them. -/
+def PageOK (g : Store) (kid : Elem) (anc : List Nat) (rp : RawPage) : Prop :=
+  ∀ p, rp.id = some p → ∃ id path, kidId kid = some id ∧ path.head? = some p ∧ path.getLast? = some id ∧
+    IsChain g (path ++ anc) ∧
+    ∀ k ∈ INHERITABLE_ATTRS, dget rp.attrs k = inherited ((path ++ anc).map (nodeDict g)) k
+
+theorem walkKids_pages_forall (visitOne : Elem → Dict → List Nat → Walk) (Q : RawPage → Prop) (P : Dict) :
+    ∀ ks, (∀ k ∈ ks, ∀ vis, ∀ rp ∈ (visitOne k P vis).pages, Q rp) →
+      ∀ vis, ∀ rp ∈ (walkKids visitOne ks P vis).pages, Q rp := by
+  intro ks
+  induction ks with
+  | nil => intro _ vis rp h; simp [walkKids] at h
+  | cons k ks ih =>
+    intro hv vis rp h
+    simp only [walkKids] at h
+    cases he : (visitOne k P vis).err with
+    | some e =>
+      simp only [he] at h
+      exact hv k (by simp) vis rp h
+    | none =>
+      simp only [he] at h
+      rcases List.mem_append.mp h with h1 | h2
+      · exact hv k (by simp) vis rp h1
+      · exact ih (fun k' hk' => hv k' (List.mem_cons_of_mem _ hk')) _ rp h2
+
+theorem visit_attrs (g : Store) : ∀ fuel kid P anc vis,
+    (∀ k ∈ INHERITABLE_ATTRS, dget P k = inherited (anc.map (nodeDict g)) k) →
+    (∀ id, kidId kid = some id → IsChain g (id :: anc)) →
+    ∀ rp ∈ (visit g fuel kid P vis).pages, PageOK g kid anc rp := by
+  intro fuel
+  induction fuel with
+  | zero => intro kid P anc vis _ _ rp h; simp [visit] at h
+  | succ f ih =>
+    intro kid P anc vis hP hch rp hrp
+    simp only [visit] at hrp
+    cases hn : nodeOf g kid with
+    | error e => simp [hn] at hrp
+    | ok r =>
+      obtain ⟨oid, props0⟩ := r
+      obtain ⟨hkid, hprops⟩ := nodeOf_ok g kid oid props0 hn
+      simp only [hn] at hrp
+      cases oid with
+      | none =>
+        simp only [Bool.false_eq_true, if_false] at hrp
+        intro p hp
+        split at hrp
+        · simp at hrp
+        · split at hrp
+          · have : rp = ⟨none, overlay P props0⟩ := by simpa using hrp
+            subst this; cases hp
+          · simp at hrp
+      | some id =>
+        have hp0 : props0 = nodeDict g id := hprops id rfl
+        subst hp0
+        simp only at hrp
+        by_cases hid : id ∈ vis
+        · simp [hid] at hrp
+        · have hc : vis.contains id = false := by simpa using hid
+          simp only [hc, Bool.false_eq_true, if_false] at hrp
+          rw [isPagesNode_overlay] at hrp
+          have hP' := overlay_inherits P (nodeDict g id) (anc.map (nodeDict g)) hP
+          have hchain : IsChain g (id :: anc) := hch id hkid
+          cases hpn : isPagesNode g id with
+          | true =>
+            simp only [hpn, if_true] at hrp
+            have hkids : listValue g ((dget (overlay P (nodeDict g id)) "Kids").getD (.atom .null)) = kidsOf g id := by
+              rw [dget_overlay_other P _ "Kids" (by decide)]
+              simp [kidsOf, hpn]
+            rw [hkids] at hrp
+            have key := walkKids_pages_forall (visit g f)
+              (fun rp => ∀ p, rp.id = some p → ∃ path, path.head? = some p ∧ path.getLast? = some id ∧
+                IsChain g (path ++ anc) ∧
+                ∀ k ∈ INHERITABLE_ATTRS, dget rp.attrs k = inherited ((path ++ anc).map (nodeDict g)) k)
+              (overlay P (nodeDict g id)) (kidsOf g id) (by
+                intro k hk vis' rp' hrp' p hp
+                have hch' : ∀ b, kidId k = some b → IsChain g (b :: id :: anc) := by
+                  intro b hb
+                  exact ⟨⟨k, hk, hb⟩, hchain⟩
+                obtain ⟨b, path, _, hh, hl, hc', ha⟩ :=
+                  ih k (overlay P (nodeDict g id)) (id :: anc) vis' (by simpa using hP') hch' rp' hrp' p hp
+                refine ⟨path ++ [id], ?_, by simp, ?_, ?_⟩
+                · cases path with
+                  | nil => simp at hh
+                  | cons x xs => simpa using hh
+                · rw [append_singleton_append]; exact hc'
+                · intro k' hk'
+                  rw [append_singleton_append]; exact ha k' hk')
+              (id :: vis) rp hrp
+            intro p hp
+            obtain ⟨path, h1, h2, h3, h4⟩ := key p hp
+            exact ⟨id, path, hkid, h1, h2, h3, h4⟩
+          | false =>
+            simp only [hpn, Bool.false_eq_true, if_false] at hrp
+            split at hrp
+            · have : rp = ⟨some id, overlay P (nodeDict g id)⟩ := by simpa using hrp
+              subst this
+              intro p hp
+              have : id = p := by simpa using hp
+              subst this
+              refine ⟨id, [id], hkid, rfl, rfl, by simpa using hchain, ?_⟩
+              intro k hk
+              simpa using hP' k hk
+            · simp at hrp
+
 end PdfVerif.PageTree
